@@ -505,7 +505,7 @@ func (u *Unit) modTargets(st *State, env *specEnv, m Clause) (ts []modTarget, er
 		case "all":
 			var b strings.Builder
 			printNode(&b, u.eng.fset, x.Args[0])
-			nm := strings.TrimSpace(b.String())
+			nm := strings.Join(strings.Fields(b.String()), "")
 			if g, ok := u.eng.cs.Ghosts[nm]; ok {
 				return []modTarget{{"G$" + g.Name, "", nil}}, nil
 			}
@@ -652,7 +652,7 @@ func (u *Unit) havocTarget(st *State, env *specEnv, m Clause) (err error) {
 			nv := u.fresh("g."+g.Name, rs)
 			// nested store
 			if len(args) > 0 {
-				u.logWrite("G$"+g.Name, args[0].S)
+				u.logWrite(st, "G$"+g.Name, args[0].S)
 			}
 			u.setHeap(st, "G$"+g.Name, sort, nestedStore(h, args, nv))
 			return nil
@@ -714,11 +714,11 @@ func nestedStore(h Term, idx []Val, v Term) Term {
 
 func (u *Unit) havocMap(st *State, mt *types.Map, m Term) {
 	d, vh, c := mapHeaps(mt)
-	u.logWrite(d, m)
-	u.logWrite(c, m)
-	u.logWrite(vh, m)
+	u.logWrite(st, d, m)
+	u.logWrite(st, c, m)
+	u.logWrite(st, vh, m)
 	for _, suf := range []string{".arr", ".off", ".len", ".cap"} {
-		u.logWrite(vh+suf, m)
+		u.logWrite(st, vh+suf, m)
 	}
 	ks := u.keySort(mt)
 	dsort := sArr(SInt, sArr(ks, SBool))
@@ -738,7 +738,7 @@ func (u *Unit) havocMap(st *State, mt *types.Map, m Term) {
 
 // havocNamed: "T.f" (field heap of package type T) or ghost name.
 func (u *Unit) havocNamed(st *State, env *specEnv, name string) {
-	name = strings.TrimSpace(name)
+	name = strings.Join(strings.Fields(name), "")
 	if g, ok := u.eng.cs.Ghosts[name]; ok {
 		sort := u.ghostSort(env, g)
 		u.heapTerm(st, "G$"+g.Name, sort)
@@ -879,7 +879,15 @@ func (u *Unit) evalBuiltin(st *State, call *ast.CallExpr, name string) Val {
 			s := sortOf(t.Elem())
 			if !isSliceT(t.Elem()) && !isStructVal(t.Elem()) && !isArrayT(t.Elem()) {
 				z := u.zeroValPure(t.Elem())
-				u.setElemArray(st, t.Elem(), r, fmt.Sprintf("((as const %s) %s)", sArr(SInt, s), z))
+				if _, isLit := isIntLit(z); isLit || z == "false" || z == "0.0" {
+					u.setElemArray(st, t.Elem(), r, fmt.Sprintf("((as const %s) %s)", sArr(SInt, s), z))
+				} else {
+					// symbolic zero value (zero time, empty string): cvc5 wants constant arrays of values only
+					zc := u.fresh("zeros", sArr(SInt, s))
+					q := fmt.Sprintf("i!q%d", u.nextQ())
+					st.assume(fmt.Sprintf("(forall ((%s Int)) (! (= (select %s %s) %s) :pattern ((select %s %s))))", q, zc, q, z, zc, q))
+					u.setElemArray(st, t.Elem(), r, zc)
+				}
 			}
 			return Val{Kind: KSlice, T: T, Arr: r, Off: "0", Len: n.S, Cap: c.S}
 		case *types.Map:
@@ -1069,6 +1077,33 @@ func (u *Unit) evalAppend(st *State, call *ast.CallExpr) Val {
 		elems = append(elems, u.copyVal(st, u.coerce(st, u.eval(st, a), el)))
 	}
 	fits := tLe(tAdd(s.Len, tInt(k)), s.Cap)
+	if m, forced := st.ghost["$appendMode"]; forced && !isSliceT(el) {
+		// statement-level case split (see execStmt): one simple model per case
+		if m.S == "fits" {
+			st.assume(fits)
+			c := u.elemArray(st, el, s.Arr)
+			for i, e := range elems {
+				c = tStore(c, tAdd(s.Off, tAdd(s.Len, tInt(int64(i)))), e.S)
+			}
+			u.setElemArray(st, el, s.Arr, c)
+			return Val{Kind: KSlice, T: T, Arr: s.Arr, Off: s.Off, Len: tAdd(s.Len, tInt(k)), Cap: s.Cap}
+		}
+		st.assume(tNot(fits))
+		fr := u.alloc(st, "append")
+		ncap := u.fresh("appcap", SInt)
+		st.assume(tLe(tAdd(s.Len, tInt(k)), ncap))
+		sC := u.elemArray(st, el, s.Arr)
+		frC := u.fresh("appcontent", sArr(SInt, sortOf(el)))
+		q := fmt.Sprintf("i!q%d", u.nextQ())
+		st.assume(fmt.Sprintf("(forall ((%s Int)) (! (=> (and (<= 0 %s) (< %s %s)) (= (select %s %s) (select %s (+ %s %s)))) :pattern ((select %s %s))))",
+			q, q, q, s.Len, frC, q, sC, s.Off, q, frC, q))
+		c := frC
+		for i, e := range elems {
+			c = tStore(c, tAdd(s.Len, tInt(int64(i))), e.S)
+		}
+		u.setElemArray(st, el, fr, c)
+		return Val{Kind: KSlice, T: T, Arr: fr, Off: "0", Len: tAdd(s.Len, tInt(k)), Cap: ncap}
+	}
 	fresh := u.alloc(st, "append")
 	arr := u.fresh("apparr", SInt)
 	st.assume(tEq(arr, tIte(fits, s.Arr, fresh)))
